@@ -318,7 +318,7 @@ def run_cases(run, cases, exe, drv):
                 elif cur is not None:
                     r = results[cur]
                     r["lines"].append(line)
-                    for tag in ("load", "wf", "levels", "sets", "totals", "removal", "merge", "inserts", "check"):
+                    for tag in ("load", "wf", "levels", "sets", "totals", "removal", "merge", "inserts", "meminserts", "check"):
                         if line.startswith(tag + " "):
                             r[tag] = line
             if rc != 0 or rc2 != 0:
@@ -356,6 +356,10 @@ def judge(run, cases, results):
                 run.violation("correspondence:insert-by-cpuset:%s" % kind,
                               "model of hwloc___insert_object_by_cpuset (Topo/Insert.v) disagrees with the implementation on %s" % name,
                               script + "\n--- verdict\n" + r["inserts"][:2000], no_input=(r["wf"] or "").startswith("wf ok"))
+            elif r.get("meminserts") is not None and not r["meminserts"].startswith("meminserts ok"):
+                run.violation("correspondence:memory-insert:%s" % kind,
+                              "model of hwloc__find_insert_memory_parent / hwloc___attach_memory_object_by_nodeset (Topo/MemAttach.v) disagrees with the implementation on %s" % name,
+                              script + "\n--- verdict\n" + r["meminserts"][:2000], no_input=(r["wf"] or "").startswith("wf ok"))
             elif r.get("sets") != "sets ok" or r.get("totals") != "totals ok" or r.get("removal") != "removal ok" or r.get("merge") != "merge ok":
                 run.violation("correspondence:sets-pipeline:%s" % kind,
                               "model of the set post-processing (root fix-up, propagate_nodeset, fixup_sets, remove_unused_sets, filter_bridges, remove_empty, KEEP_STRUCTURE merging, propagate_total_memory) disagrees with the implementation on %s" % name,
@@ -365,6 +369,9 @@ def judge(run, cases, results):
                 m = re.match(r"inserts ok n=(\d+)", r.get("inserts") or "")
                 if m:
                     run.cov["insertions_replayed_in_model"] = run.cov.get("insertions_replayed_in_model", 0) + int(m.group(1))
+                m = re.match(r"meminserts ok n=(\d+)", r.get("meminserts") or "")
+                if m:
+                    run.cov["memory_insertions_replayed_in_model"] = run.cov.get("memory_insertions_replayed_in_model", 0) + int(m.group(1))
             if r["check"] != "check ok":
                 run.violation("topology_check-abort:%s" % kind, "hwloc_topology_check() aborts on %s" % name, script)
 
